@@ -107,6 +107,11 @@ ASSUMPTIONS = [
     "lower_bounds / upper_bounds): the oracle then judges against the documented default; cbar='auto' (default) must "
     "add exactly one colour-bar Axes, cbar=None none; parallel axes: axis i stands at x = i with the label of its "
     "measure (oracle only, not modelled)",
+    "explicit limits include exactly zero, passed as 0, 0.0, -0.0 or np.float32(0) (falsy but given): the colour "
+    "limits must be the explicit ones; frames passed as df also come with an integer / boolean / float32 metric in "
+    "the objective column and with integer / float32 measure columns, judged like the float64 frame holding the "
+    "same values (a marker of a truncated integer measure may lie outside the archive-derived default limits of "
+    "proximity_archive_plot: not judged)",
     "the frame passed as df is archive.data(return_type='pandas') or a reordering / relabelling / row subset of "
     "it, possibly with a replaced objective column (distinct, in-range indices)",
     "parallel_axes_plot: on an axis whose archive bounds coincide (zero range) the limits need only contain the "
@@ -210,8 +215,11 @@ def archive_sum(a):
 
 def frame_sum(df):
     import pandas as pd
+    # per column (a frame with columns of different kinds would give an object array: pointers, not values)
     return sha(list(df.columns), [str(t) for t in df.dtypes], list(df.index),
-               pd.util.hash_pandas_object(df, index=True).values.tobytes(), df.to_numpy().tobytes())
+               pd.util.hash_pandas_object(df, index=True).values.tobytes(),
+               *[np.ascontiguousarray(df[c].to_numpy()).tobytes() for c in df.columns
+                 if df[c].dtype != object])
 
 
 def el_str(data):
@@ -277,15 +285,28 @@ def gen_clim(rng, sc):
     """explicit / one-sided / default limits; on the near-tied scales (and sometimes on the coarse one) the
     explicit limits CLOSE TOGETHER relative to their magnitude — they must be honoured exactly."""
     if sc["name"] == "coarse":
-        mode = rng.choice(["default", "default", "both", "vmin", "vmax", "far-close"])
+        mode = rng.choice(["default", "default", "both", "vmin", "vmax", "far-close", "vmin0", "vmax0", "lo0", "hi0"])
         if mode == "far-close":
             v = rng.choice([2048.0, -65536.0])
             return v, v + rng.choice([1.0 / 128, 1.0 / 64])
+        # an explicit limit of EXACTLY zero (passed as 0, 0.0, -0.0 or np.float32(0), see `zero_form`) is a given
+        # limit like any other
+        if mode == "vmin0":
+            return 0.0, None
+        if mode == "vmax0":
+            return None, 0.0
+        if mode == "lo0":
+            return 0.0, dy(rng, 1, 10, 4)
+        if mode == "hi0":
+            return dy(rng, -10, -1, 4), 0.0
         vmin = dy(rng, -10, -1, 4) if mode in ("both", "vmin") else None
         vmax = dy(rng, 1, 10, 4) if mode in ("both", "vmax") else None
         return vmin, vmax
     base, step, k = sc["base"], sc["step"], sc["K"]
-    mode = rng.choice(["default", "default", "both", "both", "vmin", "vmax"])
+    mode = rng.choice(["default", "default", "both", "both", "vmin", "vmax", "zero"])
+    if mode == "zero":  # exactly zero on the far side of the objectives (with or without the other limit)
+        other = (base + rng.randint(0, k + 2) * step) if rng.random() < 0.5 else None
+        return (0.0, other) if base > 0 else (other, 0.0)
     if mode == "both":
         vmin = base + rng.randint(-2, k) * step
         return vmin, vmin + rng.choice([1, 1, 2, 3]) * step
@@ -298,7 +319,11 @@ def gen_clim(rng, sc):
 # in the archive"): the rows of archive.data(return_type="pandas") reordered / relabelled / sliced without
 # reset_index / with a custom metric in the objective column.  The picture must be that of the frame's rows (read
 # by POSITION, whatever the pandas row labels are).
-DF_MODES = ["sorted", "reversed", "shuffled", "sliced", "relabelled", "custom"]
+# ... or with columns of another dtype: an integer / boolean / float32 metric in the objective column (counts,
+# ranks, flags: "To display a custom metric, replace the objective column"), integer / float32 measure columns.
+# Judged like the float64 frame holding the same values.
+DF_MODES = ["sorted", "reversed", "shuffled", "sliced", "relabelled", "custom",
+            "obj-int", "obj-bool", "obj-f32", "meas-int", "meas-f32"]
 
 
 def make_frame(archive, mode):
@@ -315,6 +340,18 @@ def make_frame(archive, mode):
         return df.set_axis(np.arange(len(df))[::-1] * 3 + 100)
     if mode == "custom":
         return df.assign(objective=-df["objective"]).iloc[::-1]
+    mcols = [c for c in df.columns if c.startswith("measures_")]
+    if mode == "obj-int":
+        return df.assign(objective=np.floor(df["objective"].to_numpy()).astype(np.int64))
+    if mode == "obj-bool":
+        o = df["objective"].to_numpy()
+        return df.assign(objective=(o > np.median(o)) if len(o) else o.astype(bool))
+    if mode == "obj-f32":
+        return df.astype({"objective": np.float32})
+    if mode == "meas-int":
+        return df.astype({c: np.int64 for c in mcols})
+    if mode == "meas-f32":
+        return df.astype({c: np.float32 for c in mcols})
     raise ValueError(mode)
 
 
@@ -328,8 +365,8 @@ def view_data(archive, view):
     adf = ArchiveDataFrame(frame)
     n = len(adf)
     return {"index": np.asarray(adf.get_field("index")).reshape(n),
-            "objective": np.asarray(adf.get_field("objective")).reshape(n),
-            "measures": np.asarray(adf.get_field("measures")).reshape(n, archive.measure_dim)}, frame
+            "objective": np.asarray(adf.get_field("objective"), dtype=float).reshape(n),
+            "measures": np.asarray(adf.get_field("measures"), dtype=float).reshape(n, archive.measure_dim)}, frame
 
 
 def view_tag(view):
@@ -357,6 +394,7 @@ def gen_variant(rng, sc, **extra):
          "dfmode": rng.choice(DF_MODES) if rng.random() < 0.5 else None}
     v.update(extra)
     v["omit"] = {k: rng.random() < 0.5 for k in sorted(DEFAULTS) + ["ax"]}
+    v["zero_kind"] = rng.choice(ZERO_KINDS)
     return v
 
 
@@ -367,8 +405,20 @@ def is_default(name, value):
     return isinstance(value, (bool, int, float, str)) and value == d
 
 
+ZERO_KINDS = ["int", "float", "neg", "f32"]
+
+
+def zero_form(val, kind):
+    """an explicit limit equal to zero is passed as 0, 0.0, -0.0 or np.float32(0) (all falsy, all explicit)."""
+    if val is None or val != 0:
+        return val
+    stat(f"explicit-zero-limit:{kind}")
+    return {"int": 0, "float": 0.0, "neg": -0.0, "f32": np.float32(0)}.get(kind, 0.0)
+
+
 def invoke(fn, archive, fg, variant, kwargs, df, vmin, vmax):
     """calls the plot function; options at their documented default are omitted when the variant's coin says so."""
+    vmin, vmax = zero_form(vmin, variant.get("zero_kind")), zero_form(vmax, variant.get("zero_kind"))
     full = dict(kwargs, df=df, vmin=vmin, vmax=vmax, cbar="auto" if variant.get("cbar") else None)
     omit = variant.get("omit") or {}
     passed = {}
@@ -1051,7 +1101,11 @@ def run_cvt2(case, view=None):
                 return Failure("oracle", f"{where}: axis limits are not the archive bounds of the plotted dimensions")
             if obs["clim"] is not None:
                 want = (F(e_lo), F(e_hi))
-                if obs["clim"] != want:
+                # exactly equal limits are widened by the non-dyadic 0.01 in the precision of the given limit
+                # (np.float32(0) - 0.01 is a float32): rounded relation there, exact everywhere else
+                wtol_o = Fraction(1, 2**20) * max(Fraction(1), abs(want[0]), abs(want[1]))
+                if (not degenerate and obs["clim"] != want) or \
+                        (degenerate and not all(abs(g - w) <= wtol_o for g, w in zip(obs["clim"], want))):
                     return Failure("oracle", f"{where}: colour-bar limits {_short(obs['clim'])} != {_short(want)}")
             return None
 
@@ -1071,7 +1125,9 @@ def run_cvt2(case, view=None):
                 elif not np.allclose(fc, cmap(float(mcells[i])), atol=0.03 if degenerate else 1e-9, rtol=0):
                     return Failure("corr", f"{where}: centroid {i} impl colour {fc}, model t={float(mcells[i])}")
                 # the widening constant 0.01 is not a dyadic rational: rounded relation, tolerance 2^-40 * magnitude
-            wtol = max(Fraction(1, 10**12), Fraction(1, 2**40) * max(abs(mclim[0]), abs(mclim[1])))
+            wtol = Fraction(1, 2**20) * max(Fraction(1), abs(mclim[0]), abs(mclim[1])) \
+                if v.get("zero_kind") == "f32" else \
+                max(Fraction(1, 10**12), Fraction(1, 2**40) * max(abs(mclim[0]), abs(mclim[1])))
             if not clim_corr(obs["clim"], mclim, tol=wtol if degenerate else None):
                 return Failure("corr", f"{where}: clim impl={_short(obs['clim'])} model={_short(mclim)}")
             return None
@@ -1254,8 +1310,10 @@ def run_prox(case, view=None):
             if v["bounds"]:
                 if obs["xlim"] != (F(blo[xd]), F(bhi[xd])) or obs["ylim"] != (F(blo[yd]), F(bhi[yd])):
                     return Failure("oracle", f"{where}: axis limits are not the given bounds of the plotted dimensions")
+            # (the default limits come from the archive: truncated integer measures of a frame may leave them)
             for x, y in obs["off"]:
-                if not (obs["xlim"][0] <= x <= obs["xlim"][1] and obs["ylim"][0] <= y <= obs["ylim"][1]):
+                if view != "meas-int" and \
+                        not (obs["xlim"][0] <= x <= obs["xlim"][1] and obs["ylim"][0] <= y <= obs["ylim"][1]):
                     return Failure("oracle", f"{where}: a marker lies outside the axis limits")
             msg = clim_check(obs["clim"], vmin, vmax, objs, where, widened_ok=obs.get("_cbar", True))
             if msg:
